@@ -10,7 +10,10 @@ inside them.
 -/
 namespace CnbVerif.Runtime
 
-/-- file name of `argv[0]` -/
+/-- file name of `argv[0]` — the *invoked* name. What the file on disk is called, whether the name is a copy, a hard link or a
+symlink (to a neutrally named file, or to a real file itself called `build` / `detect` as in a packaged buildpack), and whether
+it is reached by absolute path, relative path, `$PATH` lookup or an explicit `argv[0]` is not a dimension of the model: the
+code consults nothing but this name. The harness varies all of that per name (field 8 of a case). -/
 inductive Exe | detect | build | other
 deriving DecidableEq, Repr
 
